@@ -389,7 +389,8 @@ class Facts:
     # ---- neither are the names of private functions ----------------------------------------------------
     def _canonical_function_names(self, path):
         """Rules find their anchors by definition path.  A free function or inherent method that was merely renamed (same
-        parent path, same signature, and the reference name no longer exists) is given its reference name back: the
+        parent path, same signature, and the reference name no longer exists) or merely moved (same name, signature and arity
+        under another parent path) is given its reference path back: the
         definition path is substituted textually in the fact file before it is interpreted, so callees, instances and
         closures follow.  Only unambiguous cases are touched; everything else stays an honest ANCHOR-MISSING."""
         rp = os.path.join(os.path.dirname(os.path.dirname(os.path.abspath(__file__))), "reference", "fnnames.json")
@@ -409,6 +410,16 @@ class Facts:
             cands = [n for n in new if n.rsplit("::", 1)[0] == parent and cur[n].get("sig") == ref[g]["sig"] and cur[n].get("argc") == ref[g]["argc"]]
             back = [g2 for g2 in gone if g2.rsplit("::", 1)[0] == parent and ref[g2]["sig"] == ref[g]["sig"] and ref[g2]["argc"] == ref[g]["argc"]]
             if len(cands) == 1 and len(back) == 1:
+                pairs[cands[0]] = g
+                continue
+            if cands:
+                continue
+            # moved, not renamed: same last path segment, signature and arity somewhere else in the crate, and nothing else
+            # that went missing could claim it
+            base = g.rsplit("::", 1)[-1]
+            cands = [n for n in new if n.rsplit("::", 1)[-1] == base and not n.startswith("<") and cur[n].get("sig") == ref[g]["sig"] and cur[n].get("argc") == ref[g]["argc"]]
+            back = [g2 for g2 in gone if g2.rsplit("::", 1)[-1] == base and ref[g2]["sig"] == ref[g]["sig"] and ref[g2]["argc"] == ref[g]["argc"]]
+            if len(cands) == 1 and len(back) == 1 and cands[0] not in pairs:
                 pairs[cands[0]] = g
         if not pairs:
             return
